@@ -34,6 +34,9 @@ class C01Facade(Harness):
                 for wk in ("none", "real") if tier == "quick" else ("none", "int", "real"):
                     for width in ((1.0,) if tier == "quick" else (1.0, 0.5)):
                         yield (f"h1-N{n}-M{m}-{spec}-w{wk}-bw{width}", dict(N=n, M=m, spec=spec, weights=wk, keep_missed=True, dtype=None, nan=(n <= 2), width=width))
+        # bins chosen by a method that looks at the data ("quantile"): weights must stay aligned with their (unsorted) values
+        for n in (2, 3):
+            yield (f"h1-N{n}-M2-quantile-wreal", dict(N=n, M=2, spec="quantile", weights="real", keep_missed=True, dtype=None, nan=False))
         # a genuine gap that is small relative to the edges (2.5e-6..5e-6 |edge|): inside is_consecutive's relative tolerance
         for n in (1, 2):
             yield (f"h1-N{n}-M2-pairs-smallgap", dict(N=n, M=2, spec="pairs", weights="real", keep_missed=True, dtype=None, nan=False, small=True))
@@ -60,9 +63,14 @@ class C01Facade(Harness):
             x["w"] = cx.reals("w", N)
             if cx.sym:
                 cx.assume(*[w >= 0 for w in x["w"]])
-        if cx.sym and p["spec"] in ("fwb", "fixed_range", "edges"):
+        if cx.sym and p["spec"] in ("fwb", "fixed_range", "edges", "quantile"):
             cx.define("gapped", z3.BoolVal(False))
             cx.define("small_gap", z3.BoolVal(False))
+        if p["spec"] == "quantile":
+            if cx.sym:
+                v = [cx.t(i) for i in x["v"]]
+                cx.assume(*[v[i] != v[j] for i in range(N) for j in range(i)])     # distinct values: strictly rising quantile edges
+            return x
         if p["spec"] in ("fwb", "fixed_range"):
             x["t"] = cx.pyint("t", -3, 3)
         elif p["spec"] == "edges":
@@ -115,6 +123,11 @@ class C01Facade(Harness):
                 return {"raised": h}
             return snap1d(E, h, stats=True)
         kw = {}
+        if p["spec"] == "quantile":
+            h = E.attempt(h1, np.asarray(list(x["v"]), dtype=float), "quantile", bin_count=2, weights=np.asarray(list(x["w"]), dtype=float))
+            if isinstance(h, Raised):
+                return {"raised": h}
+            return snap1d(E, h, stats=True)
         if p["spec"] == "fwb":
             bins = E.mod("physt.binnings").FixedWidthBinning(bin_width=p["width"], bin_count=p["M"], bin_times_min=x["t"])
         elif p["spec"] == "fixed_range":
@@ -143,6 +156,22 @@ class C01Facade(Harness):
         v = [cx.t(i) for i in x["v"]]
         nan = [cx.isnan(i) for i in x["v"]]
         w = [cx.t(i) for i in x["w"]] if "w" in x else [z3.IntVal(1)] * N
+        if p["spec"] == "quantile":
+            # the edges are whatever the method produced (C07 checks them); here: contents are the weights of the values inside them
+            if obs.get("raised") is not None:
+                yield "no_exception", False
+                return
+            B = obs["bins"]
+            yield "two_bins", len(B) == 2
+            if len(B) != 2:
+                return
+            L, R = [cx.t(b[0]) for b in B], [cx.t(b[1]) for b in B]
+            for j in range(2):
+                memb = [in_bin(v[i], L[j], R[j], j == 1) for i in range(N)]
+                yield f"content[{j}]", cx.eq(obs["freq"][j], zsum(z3.If(memb[i], w[i], 0) for i in range(N)))
+                yield f"err2[{j}]", cx.eq(obs["err2"][j], zsum(z3.If(memb[i], w[i] * w[i], 0) for i in range(N)))
+            yield "all_weight_inside", cx.eq(obs["total"], zsum(w))
+            return
         if p["spec"] in ("fwb", "fixed_range"):
             wd = z3.RealVal(str(p["width"]))
             e = [(z3.ToReal(cx.t(x["t"])) + j) * wd for j in range(M + 1)]
